@@ -99,7 +99,7 @@ def _direct(pcfg, x, tag):
         return ("exc", type(e).__name__, None)
 
 
-def _sequential(k: int, xs, tags, fail_at: int):
+def _sequential(k: int, xs, tags, fail_at: int, stale_job_id: bool = False):
     from semantiva.context_processors import ContextType
     from semantiva.execution.executor.executor import SequentialSemantivaExecutor
     from semantiva.execution.job_queue.queue_orchestrator import QueueSemantivaOrchestrator
@@ -111,10 +111,17 @@ def _sequential(k: int, xs, tags, fail_at: int):
     master = QueueSemantivaOrchestrator(tr, stop_event=_Stop(k), logger=lib.QUIET)
     master.job_queue = _Q()
     pcs = _job_pipelines()
+    if k > 3:
+        # a burst: more jobs than any per-iteration batch size one might think of; payloads derived from the 3 symbolic ones
+        pcs = [pcs[i % 3] for i in range(k)]
+        xs = [xs[i % 3] + i for i in range(k)]
+        tags = [tags[i % 3] + 10 * i for i in range(k)]
     futs = []
     for i in range(k):
         pc = _failing_pipeline() if i == fail_at else pcs[i]
-        futs.append((master.enqueue([dict(n) for n in pc], data=lib.IntData(xs[i]), context=ContextType({"tag": tags[i]}), return_future=True, registry_profile=None), pc))
+        # (two-stage use: the context handed in may be the result context of an earlier job and carry that job's id)
+        ctx_in = {"tag": tags[i], "job_id": "id-of-an-earlier-job"} if stale_job_id else {"tag": tags[i]}
+        futs.append((master.enqueue([dict(n) for n in pc], data=lib.IntData(xs[i]), context=ContextType(ctx_in), return_future=True, registry_profile=None), pc))
     master.run_forever()  # k iterations: publishes the k job configurations
     worker_loop(0, tr, SequentialSemantivaExecutor(), _Stop(1), logger=lib.QUIET, poll_interval=0.0)
     master.stop_event = _Stop(k + 1)
@@ -135,6 +142,8 @@ def _sequential(k: int, xs, tags, fail_at: int):
         jid = got_ctx.pop("job_id", None)
         if not jid:
             return Fail("C15.P:no-job-id-annotation", "result context of job %d lacks job_id" % i)
+        if stale_job_id and jid == "id-of-an-earlier-job":
+            return Fail("C15.P:stale-job-id-annotation", "result context of job %d carries the job id that was in its INPUT context, not its own" % i)
         if not (data.data == exp[1]):
             return Fail("C15.P:wrong-result:data", "future of job %d carries data %r, direct run gives %r (cross-talk?)" % (i, data.data, exp[1]))
         if not (got_ctx == exp[2]):
@@ -147,14 +156,14 @@ def _sequential(k: int, xs, tags, fail_at: int):
 def _make_p(param):
     k, with_failure = param
 
-    def p(x0: int, x1: int, x2: int, g0: int, g1: int, g2: int, fail_at: int):
+    def p(x0: int, x1: int, x2: int, g0: int, g1: int, g2: int, fail_at: int, stale_job_id: bool):
         from vt.engine import assume
 
         if with_failure:
             assume(0 <= fail_at < k)
         else:
             assume(fail_at == -1)
-        return _sequential(k, [x0, x1, x2], [g0, g1, g2], fail_at)
+        return _sequential(k, [x0, x1, x2], [g0, g1, g2], fail_at, True if stale_job_id else False)
 
     return p
 
@@ -164,7 +173,7 @@ def _replay_p(param, a):
 
     lib.register()
     k, _ = param
-    return C04._wrap(_sequential(k, [a["x0"], a["x1"], a["x2"]], [a["g0"], a["g1"], a["g2"]], a["fail_at"]))
+    return C04._wrap(_sequential(k, [a["x0"], a["x1"], a["x2"]], [a["g0"], a["g1"], a["g2"]], a["fail_at"], a.get("stale_job_id", False)))
 
 
 # --------------------------------------------------------------------------------------------- S
@@ -355,8 +364,8 @@ def _enqueue_lines() -> int:
 def obligations(tier: str) -> List[Ob]:
     big = tier == "thorough"
     obs = [
-        Ob("C15.P1", _make_p, _replay_p, params=[(1, False), (2, False), (3, False)], budget=900, per_path=120,
-           bound="k = 1..3 jobs with distinct pipelines; payload and context value of every job symbolic; sequential hand-over master -> worker -> master through the real loops and the real in-memory transport",
+        Ob("C15.P1", _make_p, _replay_p, params=[(1, False), (2, False), (3, False), (12, False)], budget=900, per_path=120,
+           bound="k = 1..3 jobs with distinct pipelines, and a burst of 12 jobs (payloads derived from the three symbolic ones) all waiting when the master polls; payload and context value of every job symbolic; input contexts optionally carrying an earlier job's job_id (flag); sequential hand-over master -> worker -> master through the real loops and the real in-memory transport",
            targets=["semantiva/execution/job_queue/queue_orchestrator.py:QueueSemantivaOrchestrator.enqueue", "semantiva/execution/job_queue/queue_orchestrator.py:QueueSemantivaOrchestrator.run_forever", "semantiva/execution/job_queue/worker.py:worker_loop"], stubs=list(STUBS) + ["job_queue -> non-blocking stand-in", "stop events -> poll counters", "ContextType.__str__ -> constant"]),
         Ob("C15.P2", _make_p, _replay_p, params=[(1, True), (2, True), (3, True)], budget=900, per_path=120,
            bound="as P1 with one failing job at a symbolic batch position", targets=["semantiva/execution/job_queue/worker.py:worker_loop"], stubs=list(STUBS)),
